@@ -200,6 +200,62 @@ func (w *rwWorker) build() {
 		}
 		return c, w.conservation(c, "ack")
 	})
+	w.tab.Add("wait(1h+)", func(n engine.Node) (engine.Node, []V) {
+		x := n.(*rwNode)
+		c := x.clone()
+		before := len(c.L["0"].XC2P.Packets)
+		pr, crs := w.w.Wait(c.XNode, time.Hour+time.Second, true)
+		vs := haltViolation("provider", pr)
+		for _, r := range crs {
+			vs = append(vs, haltViolation("consumer", r)...)
+		}
+		if pr.Halt() != "" {
+			return nil, vs
+		}
+		for _, q := range c.L["0"].XC2P.Packets[before:] {
+			var d transfertypes.FungibleTokenPacketData
+			if err := transfertypes.ModuleCdc.UnmarshalJSON(q.P.Data, &d); err == nil {
+				amt, _ := math.NewIntFromString(d.Amount)
+				c.InFlight += amt.Int64()
+			}
+		}
+		return c, append(vs, w.conservation(c, "wait")...)
+	})
+	w.tab.Add("timeout(xfer)", func(n engine.Node) (engine.Node, []V) {
+		x := n.(*rwNode)
+		l := x.L["0"]
+		if len(l.XC2P.Packets) == 0 {
+			return nil, nil
+		}
+		pk := l.XC2P.Packets[0]
+		if pk.P.TimeoutTimestamp == 0 || uint64(x.P.Time().UnixNano()) < pk.P.TimeoutTimestamp {
+			return nil, nil // the provider's clock has not passed the packet's timeout
+		}
+		c := x.clone()
+		c.touchC("0")
+		cs := c.C["0"]
+		preSend := w.cbal(cs.Ctx, consumertypes.ConsumerToSendToProviderName, feeDenom)
+		_, err, pan := env.TimeoutPacket(&cs, w.w.CA.CApp.IBCKeeper, pk.P)
+		if pan != "" {
+			return nil, []V{vf("C19", "panic:xfer-timeout", "%s", pan)}
+		}
+		if err != nil {
+			return nil, nil
+		}
+		ll := c.L["0"]
+		ll.XC2P.Packets = ll.XC2P.Packets[1:]
+		c.C["0"], c.L["0"] = cs, ll
+		var d transfertypes.FungibleTokenPacketData
+		_ = transfertypes.ModuleCdc.UnmarshalJSON(pk.P.Data, &d)
+		amt, _ := math.NewIntFromString(d.Amount)
+		c.InFlight -= amt.Int64()
+		var vs []V
+		if got := w.cbal(cs.Ctx, consumertypes.ConsumerToSendToProviderName, feeDenom).Sub(preSend); !got.Equal(amt) {
+			vs = append(vs, vf("C16", "timed-out-rewards-not-returned", "a reward transfer of %s timed out: the to-send account got %s back", amt, got))
+		}
+		w.stats.Count("transfer-timed-out")
+		return c, append(vs, w.conservation(c, "timeout")...)
+	})
 	w.tab.Add("close(xfer)", func(n engine.Node) (engine.Node, []V) {
 		x := n.(*rwNode)
 		if x.Closed {
